@@ -82,7 +82,7 @@ def ref_check(cap, ops):
         if op[0] == 'g':
             r = c.get(op[1])
             if op[1] in ref:
-                if r is not_found or r != ref[op[1]][0]:
+                if r is not_found or r != ref[op[1]][0] or type(r) is not type(ref[op[1]][0]):
                     return 'op %d: get(%r) returned %r, last value set was %r' % (i, op[1], r, ref[op[1]][0])
                 ref[op[1]][1] += 1
                 ref[op[1]][2] = clock
@@ -219,6 +219,23 @@ def run(ctx, impl_only=False):
             ctx.nontriv(lines[i])
         if i % 997 == 0:
             ctx.sample({'request': lines[i], 'answer': impl})
+    # values of every kind, falsy ones and None included, rewritten over held keys (reference only: the model carries ints)
+    odd_vals = [None, 0, '', False, (), 0.0, 'x', 5, [1], {'a': 1}]
+    for _ in range(3000 if ctx.thorough() else 400):
+        cap = ctx.rng.choice([1, 2, 3, 4])
+        nk = ctx.rng.randint(1, cap + 2)
+        ops = []
+        for i in range(ctx.rng.randint(2, 25)):
+            k = ctx.rng.randint(1, nk)
+            ops.append(('g', k) if ctx.rng.random() < 0.45 else ('s', k, ctx.rng.choice(odd_vals)))
+        ctx.evaluations += 1
+        ctx.count('odd_value_sequences')
+        try:
+            why = ref_check(cap, ops)
+        except Exception as e:
+            why = 'operation raised %r' % e
+        if why:
+            ctx.violate({'cap': cap, 'ops': [list(map(repr, o)) if o[0] == 's' else list(o) for o in ops], 'line': 'odd values'}, why)
     for f in threaded(ctx):
         ctx.violate({'threads': 8, **f}, f['why'])
 
